@@ -387,7 +387,8 @@ def run_check(pid, tier, jobs=None):
             stubs=info.get("stubs", []),
             model_validation=pre or {},
             instance_list=[dict(name=insts[i].name, paths=results[i]["paths"], obligations=results[i]["proves"],
-                                wall_s=round(results[i]["wall"], 2)) for i in sorted(results)][:400],
+                                wall_s=round(results[i]["wall"], 2))
+                           for i in sorted(results, key=lambda i: -results[i]["wall"])][:300],
             known_findings_reported=sorted(reported_known),
             exhaustive=False,
             jobs=jobs,
